@@ -121,7 +121,10 @@ Definition c09_sched_ops (V V' : rview) (st : ostep) : list rop :=
   let moved (x : rres) := existsb (is_res (r_app x) (r_key x)) added in
   let cancelled := filter (fun x => negb (bound x) && negb (moved x) && outstanding V (r_app x) (r_key x)) removed in
   let stale := filter (fun x => negb (bound x) && negb (moved x) && negb (outstanding V (r_app x) (r_key x))) removed in
-  let req_nodes := nodup N.eq_dec (map r_node (filter (fun x => req_on (r_node x)) cancelled)) in
+  (* cancelReservations only gives up reservations whose own ask has NO required node; a vanished reservation of a
+     required-node ask was cancelled by the wait timeout (not counted) *)
+  let by_required (x : rres) := req_on (r_node x) && (ask_req V (r_app x) (r_key x) =? 0) in
+  let req_nodes := nodup N.eq_dec (map r_node (filter by_required cancelled)) in
   (* a reservation given up by the wait timeout and taken again for the same ask on the same node within the cycle: the
      views do not change (the partition counter grows, the cancellation does not decrement it); the reserve-time
      predicate call (allocate = false, answered yes) for a pair that is reserved before and after tells it *)
@@ -131,7 +134,7 @@ Definition c09_sched_ops (V V' : rview) (st : ostep) : list rop :=
                       (rv_app V) in
   flat_map (fun x => [RCancel (r_app x) (r_key x); RReserve (r_app x) (r_key x) (r_node x) true]) again ++
   map (fun n => RCancelRequired n true) req_nodes ++
-  map (fun x => RCancel (r_app x) (r_key x)) (filter (fun x => negb (req_on (r_node x))) cancelled) ++
+  map (fun x => RCancel (r_app x) (r_key x)) (filter (fun x => negb (by_required x)) cancelled) ++
   map (fun x => RUnreserve (r_app x) (r_key x)) stale ++
   map (fun x => RAllocate (r_app x) (r_key x) (r_node x)) allocs ++
   map (fun p => RAllocateKeep (fst p) (snd p)) swaps ++
